@@ -73,7 +73,7 @@ def chan_kf_for(known):
     return f
 
 
-def validate_chan(rep, path, label, jobs=8):
+def validate_chan(rep, path, label, jobs=None):
     known = C.load_known()
     hs = C.split_histories(path)
     r = C.validate_histories(os.path.join(C.SPECS, "chan"), "ChanTrace", "ChanTrace.cfg", hs,
